@@ -527,8 +527,21 @@ func (e *Engine) pathEnd(st *State) {
 	}
 }
 
+// armStop: inside a merge arm, arriving at the join block ends the arm (phis are merged later).
+func (e *Engine) armStop(f *Frame, target *ssa.BasicBlock) bool {
+	if f.stopAt != nil && target == f.stopAt {
+		f.prev = f.blk
+		f.stopped = true
+		return true
+	}
+	return false
+}
+
 // pushFork schedules alternative states.
 func (e *Engine) pushFork(st *State) {
+	if st.inArm > 0 {
+		panic(mergeAbort{"fork inside arm"})
+	}
 	e.stateSeq++
 	st.id = e.stateSeq
 	e.work = append(e.work, st)
@@ -730,6 +743,9 @@ func (e *Engine) step(st *State) int {
 	case *ssa.DebugRef:
 		f.ip++
 	case *ssa.Jump:
+		if e.armStop(f, f.blk.Succs[0]) {
+			return stCont
+		}
 		if handled, alive := e.tryFillLoop(st, f, f.blk, f.blk.Succs[0]); handled {
 			if !alive {
 				return stDone
@@ -754,11 +770,14 @@ func (e *Engine) step(st *State) int {
 		if !ok {
 			return stDone
 		}
+		tgt := f.blk.Succs[1]
 		if taken {
-			e.gotoBlock(st, f, f.blk.Succs[0])
-		} else {
-			e.gotoBlock(st, f, f.blk.Succs[1])
+			tgt = f.blk.Succs[0]
 		}
+		if e.armStop(f, tgt) {
+			return stCont
+		}
+		e.gotoBlock(st, f, tgt)
 	case *ssa.Return:
 		return e.doReturn(st, f, x)
 	case *ssa.Store:
